@@ -10,6 +10,7 @@ import (
 	"os"
 	"os/exec"
 	"path/filepath"
+	"runtime/debug"
 	"strconv"
 	"strings"
 	"time"
@@ -34,7 +35,7 @@ func main() {
 			}
 		}
 		crashed := ""
-		for attempt := 0; attempt < 6; attempt++ {
+		for attempt := 0; attempt < 80; attempt++ {
 			cmd := exec.Command(os.Args[0], os.Args[1:]...)
 			cmd.Env = append(os.Environ(), "C11_CHILD=1", "C11_CRASHED="+crashed)
 			var tail bytes.Buffer
@@ -54,6 +55,7 @@ func main() {
 		}
 		os.Exit(2)
 	}
+	debug.SetMaxStack(96 << 20) // an endless recursion inside otto dies quickly instead of eating a gigabyte first
 	env := FromFlags("c11")
 	runC11(env)
 	env.Finish()
@@ -602,6 +604,22 @@ var revivers = []string{
 	`(v!==null&&typeof v==="object"&&!Array.isArray(v))?null:v`,
 	`(v===null||typeof v==="boolean")?undefined:v`,
 	`k===""?v:undefined`,
+	// 8-12: the reviver changes its holder array while the array is being walked
+	`(Array.isArray(this)&&k==="0"&&this.push("P"),v)`,
+	`(Array.isArray(this)&&k==="1"&&(this.length=1),v===undefined?"D":v)`,
+	`(Array.isArray(this)&&k==="0"&&this.pop(),v)`,
+	`(Array.isArray(this)&&k==="0"&&(this.length+=2),v)`,
+	`(Array.isArray(this)&&k==="0"&&this.every(function(x){return x===null||typeof x!=="object"})&&this.unshift("U"),v)`,
+}
+
+// every reviver that resizes its holder over arrays of every small shape
+func (g *gen) sweepRevivers() {
+	texts := []string{`[1,2]`, `[1,2,3,4]`, `[[1,2],[3]]`, `[]`, `[1]`, `{"a":[1,2,3]}`, `[[],[1,[2,3]]]`, `["a","b","c"]`, `[null,[1,2,3],3]`, `[[1,2,3],[4,5,6],[7,8]]`, `{"0":[1,2],"1":[3,4]}`, `[{"a":1},2]`}
+	for _, t := range texts {
+		for rid := 8; rid <= 12; rid++ {
+			g.caseRevive(ascii(t), rid)
+		}
+	}
 }
 
 func (g *gen) caseRevive(t []uint16, rid int) {
@@ -692,6 +710,9 @@ type jsv struct {
 	shape string // obj: "" plain, "args" an arguments object (first argc members are its indices), "arrproto"/"arrsub" an Object whose prototype is an array
 	argc  int    // args: number of arguments passed; members "0".."argc-1" missing from keys were deleted
 	junk  bool   // arr / wstr: the object also carries named properties that JSON.stringify must ignore
+	ovr   int    // wnum/wstr/wbool: how valueOf/toString is overridden; f/s/b hold what ToNumber/ToString(value) then gives, f0/s0 the internal value
+	f0    float64
+	s0    []uint16
 }
 
 func hasCyc(v *jsv) bool {
@@ -730,11 +751,17 @@ func (v *jsv) coq() string {
 		c := "Num"
 		if v.kind == "wnum" {
 			c = "WNum"
+			if v.ovr == ovrThrow {
+				return "(Cyc false)" // the conversion throws a TypeError, as a cyclic reference does
+			}
 		}
 		return fmt.Sprintf("(%s %s %s %s)", c, Cdouble(v.f), d, n)
 	case "str":
 		return "(Str " + Cunits(v.s) + ")"
 	case "wstr":
+		if v.ovr == ovrThrow {
+			return "(Cyc false)"
+		}
 		return "(WStr " + Cunits(v.s) + ")"
 	case "wbool":
 		return "(WBool " + Cbool(v.b) + ")"
@@ -767,6 +794,77 @@ func (v *jsv) coq() string {
 	panic("kind")
 }
 
+const (
+	ovrDirect    = 1 // valueOf / toString returns the value
+	ovrOtherType = 2 // returns a primitive of another type, converted
+	ovrFallback  = 3 // returns an object, so the other method is asked
+	ovrThrow     = 4 // throws a TypeError
+	ovrIgnored   = 5 // the method ToNumber / ToString does not ask is overridden
+)
+
+// a wrapper object whose conversion methods are overridden on the object
+func (g *gen) overridden(kind string, ovr int) *jsv {
+	r := g.r
+	switch kind {
+	case "wnum":
+		v := &jsv{kind: "wnum", ovr: ovr, f0: float64(1 + r.Intn(9))}
+		switch ovr {
+		case ovrDirect:
+			v.f = Pick(r, []float64{42, 0.5, -3, 1e21, math.NaN(), math.Inf(1), math.Inf(-1), 0, g.double()})
+		case ovrOtherType:
+			v.f = Pick(r, []float64{12, 0.5, 1, 0, math.NaN(), 7, -4})
+		case ovrFallback:
+			v.f = float64(r.Intn(100))
+		case ovrThrow:
+			v.f = v.f0
+		case ovrIgnored:
+			v.f = v.f0
+		}
+		return v
+	case "wstr":
+		v := &jsv{kind: "wstr", ovr: ovr, s0: ascii(Pick(r, []string{"a", "", "in"}))}
+		switch ovr {
+		case ovrDirect, ovrFallback:
+			v.s = Pick(r, [][]uint16{ascii("zz"), ascii(""), g.str(false), ascii("<\"")})
+		case ovrOtherType:
+			v.s = ascii(strconv.Itoa(r.Intn(1000)))
+		default:
+			v.s = v.s0
+		}
+		return v
+	default:
+		return &jsv{kind: "wbool", ovr: ovrDirect, b: r.Intn(2) == 0}
+	}
+}
+
+// every override of every wrapper class, in every position a value can reach Str from
+func (g *gen) sweepWrappers() {
+	type mk struct {
+		kind string
+		ovr  int
+	}
+	var all []mk
+	for o := ovrDirect; o <= ovrIgnored; o++ {
+		all = append(all, mk{"wnum", o}, mk{"wstr", o})
+	}
+	all = append(all, mk{"wbool", ovrDirect}, mk{"wnum", ovrDirect}, mk{"wnum", ovrDirect}, mk{"wnum", ovrOtherType})
+	for i, m := range all {
+		w := func() *jsv { return g.overridden(m.kind, m.ovr) }
+		g.caseStringify(w(), "undefined", "RNone", "undefined", "SNone", "wrapper-sweep")
+		g.caseStringify(arr(num(1), w(), w()), "undefined", "RNone", "undefined", "SNone", "wrapper-sweep")
+		g.caseStringify(obj("n", w(), "m", arr(w())), "undefined", "RNone", "2", "(SNum "+Cdouble(2)+")", "wrapper-sweep")
+		g.caseStringify(obj("t", &jsv{kind: "toj", k: 0, inner: w()}), "undefined", "RNone", "undefined", "SNone", "wrapper-sweep")
+		id := []int{0, 6, 8, 3, 13, 10}[i%6]
+		g.caseStringify(obj("a", arr(w()), "b", w()), replacers[id], fmt.Sprintf("(RFun %d)", id), "undefined", "SNone", "wrapper-sweep")
+		g.caseStringify(obj("b", w(), "c", w()), `["b"]`, "(RList [PStr [98]])", "undefined", "SNone", "wrapper-sweep")
+		g.caseMarshal(obj("g", w()))
+	}
+	// wrappers with overrides made by the replacer function itself
+	for _, v := range []*jsv{num(5), arr(num(1), str("x"), num(2)), obj("p", num(3), "q", str("s"))} {
+		g.caseStringify(v, replacers[14], "(RFun 14)", "undefined", "SNone", "wrapper-sweep")
+	}
+}
+
 type anc struct {
 	name  string
 	isArr bool
@@ -790,17 +888,65 @@ func (b *builder) build(v *jsv) string {
 	case "num":
 		return JSNum(v.f)
 	case "wnum":
-		return b.bind(v, "new Number("+JSNum(v.f)+")")
+		if v.ovr == 0 {
+			return b.bind(v, "new Number("+JSNum(v.f)+")")
+		}
+		nm := b.bind(v, "new Number("+JSNum(v.f0)+")")
+		ret := JSNum(v.f)
+		switch v.ovr {
+		case ovrDirect:
+			b.stmts = append(b.stmts, nm+".valueOf=function(){return "+ret+"};")
+		case ovrOtherType: // a numeric string, true, null or undefined: ToNumber of it
+			switch {
+			case math.IsNaN(v.f):
+				ret = "undefined"
+			case v.f == 1 && b.g.r.Intn(2) == 0:
+				ret = "true"
+			case v.f == 0 && b.g.r.Intn(2) == 0:
+				ret = "null"
+			default:
+				ret = "\"" + strconv.FormatFloat(v.f, 'f', -1, 64) + "\""
+			}
+			b.stmts = append(b.stmts, nm+".valueOf=function(){return "+ret+"};")
+		case ovrFallback: // valueOf gives an object: toString is asked
+			b.stmts = append(b.stmts, nm+".valueOf=function(){return {}};"+nm+".toString=function(){return \""+strconv.FormatFloat(v.f, 'f', -1, 64)+"\"};")
+		case ovrThrow:
+			b.stmts = append(b.stmts, nm+".valueOf=function(){throw new TypeError(\"valueOf\")};")
+		case ovrIgnored: // toString alone is not asked by ToNumber
+			b.stmts = append(b.stmts, nm+".toString=function(){return \"77\"};")
+		}
+		return nm
 	case "str":
 		return jsStrExpr(v.s)
 	case "wstr":
+		if v.ovr != 0 {
+			nm := b.bind(v, "new String("+jsStrExpr(v.s0)+")")
+			ret := jsStrExpr(v.s)
+			switch v.ovr {
+			case ovrDirect:
+				b.stmts = append(b.stmts, nm+".toString=function(){return "+ret+"};")
+			case ovrOtherType: // a number: ToString of it
+				b.stmts = append(b.stmts, nm+".toString=function(){return "+string(utf16.Decode(v.s))+"};")
+			case ovrFallback: // toString gives an object: valueOf is asked
+				b.stmts = append(b.stmts, nm+".toString=function(){return []};"+nm+".valueOf=function(){return "+ret+"};")
+			case ovrThrow:
+				b.stmts = append(b.stmts, nm+".toString=function(){throw new TypeError(\"toString\")};")
+			case ovrIgnored: // valueOf alone is not asked by ToString
+				b.stmts = append(b.stmts, nm+".valueOf=function(){return \"zz\"};")
+			}
+			return nm
+		}
 		nm := b.bind(v, "new String("+jsStrExpr(v.s)+")")
 		if v.junk {
 			b.stmts = append(b.stmts, nm+".x=1;"+nm+".length2=2;")
 		}
 		return nm
 	case "wbool":
-		return b.bind(v, "new Boolean("+strconv.FormatBool(v.b)+")")
+		nm := b.bind(v, "new Boolean("+strconv.FormatBool(v.b)+")")
+		if v.ovr != 0 { // a Boolean object is unboxed from its internal value: overrides are not asked
+			b.stmts = append(b.stmts, nm+".valueOf=function(){return "+strconv.FormatBool(!v.b)+"};"+nm+".toString=function(){return \"x\"};")
+		}
+		return nm
 	case "date":
 		return b.bind(v, "new Date("+JSNum(v.f)+")")
 	case "fun":
@@ -981,10 +1127,16 @@ func (g *gen) jsValue(depth int, ancestors []*jsv, o sopt) *jsv {
 		if o.jsonish {
 			return &jsv{kind: "num", f: float64(r.Intn(100))}
 		}
+		if r.Intn(3) == 0 {
+			return g.done(g.overridden("wnum", 1+r.Intn(5)))
+		}
 		return g.done(&jsv{kind: "wnum", f: g.double()})
 	case 11:
 		if o.jsonish {
 			return &jsv{kind: "str", s: g.str(false)}
+		}
+		if r.Intn(3) == 0 {
+			return g.done(g.overridden(Pick(r, []string{"wstr", "wstr", "wbool"}), 1+r.Intn(5)))
 		}
 		return g.done(Pick(r, []*jsv{{kind: "wstr", s: g.str(true)}, {kind: "wbool", b: r.Intn(2) == 0}}))
 	case 12:
@@ -1057,6 +1209,7 @@ var replacers = []string{
 	`function(k,v){return typeof v==="function"?"F":v}`,
 	`function(k,v){return (v===null||typeof v==="string")?undefined:v}`,
 	`function(k,v){return (v===undefined||v===null||typeof v==="function"||typeof v==="boolean")?k+":"+typeof v+":"+(Array.isArray(this)?"A":"O"):v}`, // the call, written into the text
+	`function(k,v){if(typeof v==="number"){var n=new Number(v);n.valueOf=function(){return 42};return n}if(typeof v==="string"){var s=new String(v);s.toString=function(){return "zz"};return s}return v}`,
 }
 
 // replacers that see or make undefined: used over arrays with holes and objects with undefined members
@@ -1632,6 +1785,8 @@ func runC11(env *Env) {
 	g.caseRevDel(4)
 	g.caseStringify(num(1152921504606846976), "undefined", "RNone", "undefined", "SNone", "pinned")
 	g.sweepSpace()
+	g.sweepWrappers()
+	g.sweepRevivers()
 	g.sweepAround()
 	g.sweepClasses()
 
